@@ -499,7 +499,7 @@ pub fn replay_cnfvec(args: &Args) {
                 // LIFTED CNFs (decision nodes with up to 128 elements): seven further variables x3..x9 under the left child of the root,
                 // x0..x2 under the right; the CNF has, for every one of the 128 assignments m of x3..x9, the clauses of one printed CNF,
                 // each guarded by "x3..x9 = m" (seven more literals). Its models: the printed models of CNF number m in slice m.
-                for round in 0..3usize {
+                for round in [seed as usize % 3, (seed as usize + 1) % 3] {
                     configs += 1;
                     let pick: Vec<&Value> = (0..128).map(|_| &vecs[rng.below(vecs.len())]).collect();
                     let mut cl: Vec<Vec<Literal>> = vec![];
